@@ -213,7 +213,7 @@ fn link(o: &Ontology, m: &str, tids: &[u32], table: &[u32], out: &mut Vec<String
     let cl3: Vec<(usize, usize, u32, usize)> = linkage.into_cluster().map(|c| (c.lhs(), c.rhs(), c.distance().to_bits(), c.len())).collect();
     out.push(format!("LINK {} n={} merges={}", m, n, cl.len()));
     for c in &cl {
-        out.push(format!("M {} {} {} {}", c.0, c.1, f32bits(c.2), c.3));
+        out.push(format!("M {} {} b32:{:08x} {}", c.0, c.1, c.2.to_bits(), c.3));
     }
     out.push(format!("IDX {}", ids(idx.iter().map(|x| *x as u32))));
     for call in log.borrow().iter() {
